@@ -45,6 +45,7 @@ type Frame struct {
 	loops  map[*ssa.BasicBlock]bool // loop headers already cut on this path
 	ct     *Contract                // contract being verified when this is the top frame
 	unroll int                      // loop header visits on this path (unrolling guard)
+	skipHeader *ssa.BasicBlock      // header whose loop-cut processing was just done
 	preSt  []*State                 // states at entry of the cut loops (innermost last)
 	preFr  []*Frame
 }
@@ -99,6 +100,7 @@ type Exec struct {
 	usedLemmas  map[string]bool
 	splitGoals  bool
 	trigQuadrants bool
+	regions     map[string]*Cell
 	schemaCtr   int
 	curResultDyn types.Type
 	recvCtr     int
@@ -280,7 +282,9 @@ func (x *Exec) symValue(st *State, t types.Type, name string) Value {
 		st.store[c] = &SymArr{elem: u.Elem(), name: sanitize(name)}
 		ln := freshVar(name+"$len", SInt)
 		st.axiom(mkLe(mkInt(0), ln))
-		return &SliceV{cell: c, off: mkInt(0), len: ln, cap: ln, elem: u.Elem(), named: t}
+		cp := freshVar(name+"$cap", SInt)
+		st.axiom(mkLe(ln, cp))
+		return &SliceV{cell: c, off: mkInt(0), len: ln, cap: cp, elem: u.Elem(), named: t}
 	case *types.Interface:
 		return &Opaque{typ: t, tag: name}
 	case *types.Map:
@@ -341,6 +345,25 @@ func (x *Exec) load(st *State, p *Ptr) Value {
 	return getPath(v, p.path)
 }
 
+func isArrayType(t types.Type) bool {
+	_, ok := t.Underlying().(*types.Array)
+	return ok
+}
+
+// regionCell: the symbolic array holding all objects of type t that are only
+// known through pointers found in symbolic data (elements of received batches
+// etc.), indexed by pointer identity.
+func (x *Exec) regionCell(t types.Type) *Cell {
+	k := types.TypeString(t, nil)
+	if c, ok := x.regions[k]; ok {
+		return c
+	}
+	c := newCell("region$"+k, types.NewArray(t, -1))
+	x.regions[k] = c
+	x.gstate.store[c] = &SymArr{elem: t, name: "heap_" + sanitize(k)}
+	return c
+}
+
 // splitSymPath splits a path at the symbolic-index marker.
 func splitSymPath(path []int) (pre []int, off int, suf []int) {
 	for i, s := range path {
@@ -358,7 +381,12 @@ func (x *Exec) storeTo(st *State, p *Ptr, nv Value) {
 	}
 	v, ok := st.store[p.cell]
 	if !ok {
-		fail("store to unknown cell %s", p.cell.name)
+		if gv, isG := x.gstate.store[p.cell]; isG {
+			st.store[p.cell] = gv
+			v = gv
+		} else {
+			fail("store to unknown cell %s", p.cell.name)
+		}
 	}
 	if sa, ok := v.(*SymArr); ok {
 		st.store[p.cell] = x.symArrStore(st, sa, p, nv)
@@ -426,7 +454,14 @@ func (x *Exec) symLeaf(st *State, t types.Type, name string, idx *Term) Value {
 			return &Str{sym: x.ufApp(st, "sel_"+name+"$str", SInt, []*Term{idx})}
 		}
 	case *types.Pointer:
-		return &Opaque{typ: t, tag: "elem$" + name, id: x.ufApp(st, "sel_"+name+"$ptr", SInt, []*Term{idx})}
+		id := x.ufApp(st, "sel_"+name+"$ptr", SInt, []*Term{idx})
+		if _, isStruct := u.Elem().Underlying().(*types.Struct); isStruct || isArrayType(u.Elem()) {
+			if !foreignType(u.Elem()) {
+				// unknown objects of a module type live in one symbolic region indexed by identity
+				return &Ptr{cell: x.regionCell(u.Elem()), sym: id}
+			}
+		}
+		return &Opaque{typ: t, tag: "elem$" + name, id: id}
 	case *types.Struct:
 		el := make([]Value, u.NumFields())
 		for i := range el {
@@ -798,7 +833,22 @@ func theoryAxioms(apps []appRec) []*Term {
 
 func (x *Exec) externalCall(st *State, name string, sig *types.Signature, args []Value) []Out {
 	x.note("external call " + name + ": results arbitrary; memory reachable through its pointer arguments is havocked, nothing else changes")
-	st.log = append(st.log, Event{kind: "ext:" + name, args: args})
+	// event arguments are recorded by value: what a pointer argument pointed to at the time of the call
+	snap := make([]Value, len(args))
+	for i, a := range args {
+		snap[i] = a
+		if ifc, isI := a.(*Iface); isI && ifc.dyn != nil {
+			a = ifc.val
+		}
+		if p, ok := a.(*Ptr); ok && p.cell != nil {
+			if cur, ok := st.store[p.cell]; ok {
+				if _, isSym := cur.(*SymArr); !isSym {
+					snap[i] = getPath(cur, p.path)
+				}
+			}
+		}
+	}
+	st.log = append(st.log, Event{kind: "ext:" + name, args: snap})
 	st.version++
 	for _, a := range args {
 		if ifc, isI := a.(*Iface); isI && ifc.dyn != nil {
@@ -957,6 +1007,19 @@ func (x *Exec) run(st *State, fr *Frame, b *ssa.BasicBlock, idx int, prev *ssa.B
 	for {
 		if st.infeasible() {
 			return nil
+		}
+		if idx == 0 && fr.skipHeader == b {
+			// continuation right after a loop cut: phis are already assigned
+			fr.skipHeader = nil
+			idx = x.countPhis(b)
+			if idx == 0 {
+				nst, next, nprev, outs, done := x.runInstrs(st, fr, b, 0, prev)
+				if done {
+					return outs
+				}
+				st, prev, b = nst, nprev, next
+				continue
+			}
 		}
 		if idx == 0 {
 			if fr.stopAt == b {
